@@ -65,40 +65,40 @@ structure DynLevel where
 
 def kinOf (out : List String) : List DynLevel → List String → List Nat → List TermSt → List (List Nat × Int)
   | [], rs, es => run (lv out rs es)
-  | L :: Ls, _, _ => runK (fun s => kinOf out Ls L.D.rs' L.D.es' (dynStates L.D s)) (lv out L.preN L.preE)
+  | L :: Ls, _, _ => runK (fun s => kinOf (renameRanks L.D.K L.D.K0 out) Ls L.D.rs' L.D.es' (dynStates L.D s)) (lv out L.preN L.preE)
 
-def ChainOK (out : List String) : List DynLevel → List (List String) → List String → List Nat → Prop
-  | [], _, rs, es => es.length = rs.length
-  | L :: Ls, ranks, rs, es =>
+def ChainOK : List String → List DynLevel → List (List String) → List String → List Nat → Prop
+  | _, [], _, rs, es => es.length = rs.length
+  | out, L :: Ls, ranks, rs, es =>
       rs = L.preN ++ L.D.rsU ∧ es = L.preE ++ L.D.esU ∧ L.preE.length = L.preN.length ∧
       DynOKd L.D out (ranks.map (concord L.D.rsU)) ∧
-      ChainOK out Ls (ranks.map fun aR => splitRanks L.D.K L.D.K1 L.D.K0 (concord L.D.rsU aR)) L.D.rs' L.D.es'
+      ChainOK (renameRanks L.D.K L.D.K0 out) Ls (ranks.map fun aR => splitRanks L.D.K L.D.K1 L.D.K0 (concord L.D.rsU aR)) L.D.rs' L.D.es'
 
-instance (out : List String) : ∀ (levels : List DynLevel) (ranks : List (List String)) (rs : List String) (es : List Nat),
+instance instDecChainOK : ∀ (out : List String) (levels : List DynLevel) (ranks : List (List String)) (rs : List String) (es : List Nat),
     Decidable (ChainOK out levels ranks rs es)
-  | [], _, _, _ => by unfold ChainOK; infer_instance
-  | L :: Ls, ranks, rs, es => by
+  | _, [], _, _, _ => by unfold ChainOK; infer_instance
+  | out, L :: Ls, ranks, rs, es => by
     unfold ChainOK
-    have := instDecidableChainOK out Ls (ranks.map fun aR => splitRanks L.D.K L.D.K1 L.D.K0 (concord L.D.rsU aR)) L.D.rs' L.D.es'
+    have := instDecChainOK (renameRanks L.D.K L.D.K0 out) Ls (ranks.map fun aR => splitRanks L.D.K L.D.K1 L.D.K0 (concord L.D.rsU aR)) L.D.rs' L.D.es'
     infer_instance
 
-theorem chain_equiv (out : List String) : ∀ (levels : List DynLevel) (ranks : List (List String)) (rs : List String) (es : List Nat),
+theorem chain_equiv : ∀ (out : List String) (levels : List DynLevel) (ranks : List (List String)) (rs : List String) (es : List Nat),
     ChainOK out levels ranks rs es → ∀ sts, InvR ranks rs es sts →
     ∀ τ, sumAt τ (kinOf out levels rs es sts) = sumAt τ (spec (lv out rs es) sts)
-  | [], ranks, rs, es, hlen, sts, hinv, τ => by
+  | out, [], ranks, rs, es, hlen, sts, hinv, τ => by
     obtain ⟨st, rfl, hk, _, _, hb⟩ := hinv
     exact run_inner out rs es hlen st hk hb τ
-  | L :: Ls, ranks, rs, es, hc, sts, hinv, τ => by
+  | out, L :: Ls, ranks, rs, es, hc, sts, hinv, τ => by
     obtain ⟨hrs, hes, hpre, hd, hrest⟩ := hc
     subst hrs; subst hes
     have H := dynOK_of_d hd
     let D := L.D
     let ranks0 := ranks.map (concord D.rsU)
     let ranks' := ranks.map fun aR => splitRanks D.K D.K1 D.K0 (concord D.rsU aR)
-    have ih := chain_equiv out Ls ranks' D.rs' D.es' hrest
+    have ih := chain_equiv (renameRanks D.K D.K0 out) Ls ranks' D.rs' D.es' hrest
     let I : List (Bool × Nat) → List TermSt → Prop := fun ls s =>
       ∃ rem remE, ls = lv out rem remE ∧ remE.length = rem.length ∧ InvR ranks (rem ++ D.rsU) (remE ++ D.esU) s
-    have hmain := runK_eq_specK I (fun s => kinOf out Ls D.rs' D.es' (dynStates D s)) (spec (lv out D.rsU D.esU))
+    have hmain := runK_eq_specK I (fun s => kinOf (renameRanks D.K D.K0 out) Ls D.rs' D.es' (dynStates D s)) (spec (lv out D.rsU D.esU))
       (by
         intro s ⟨rem, remE, hl, hlen', hinv'⟩ σ
         have hrem : rem = [] := by
@@ -134,7 +134,7 @@ theorem chain_equiv (out : List String) : ∀ (levels : List DynLevel) (ranks : 
                 have := (hso i x o hx h2).2
                 simpa using this,
             bounded := by simpa using hbd }
-        apply inner_equiv_gen D out ranks0 H (kinOf out Ls D.rs' D.es') ?_ st R σ
+        apply inner_equiv_gen D out ranks0 H (kinOf (renameRanks D.K D.K0 out) Ls D.rs' D.es') ?_ st R σ
         intro st' hk' hl' hso' hb' τ'
         apply ih [st'] ?_ τ'
         refine ⟨st', rfl, hk', by simp [ranks', ranks0] at hl' ⊢; exact hl', ?_, hb'⟩
@@ -163,7 +163,7 @@ theorem chain_equiv (out : List String) : ∀ (levels : List DynLevel) (ranks : 
         rw [lv_append out L.preN D.rsU L.preE D.esU hpre] at hE
         exact ext_prefix _ _ _ hE)
       τ
-    show sumAt τ (runK (fun s => kinOf out Ls D.rs' D.es' (dynStates D s)) (lv out L.preN L.preE) sts) = _
+    show sumAt τ (runK (fun s => kinOf (renameRanks D.K D.K0 out) Ls D.rs' D.es' (dynStates D s)) (lv out L.preN L.preE) sts) = _
     rw [hmain, ← spec_append, ← lv_append out L.preN D.rsU L.preE D.esU hpre]
 
 /-- the states the model compiler starts from satisfy the invariant -/
